@@ -594,6 +594,8 @@ var twoParseDocs = map[string][2]string{
 	"two-parses": {"[1, \"a\", [true](Set)](List)", "[\n    'x': 2.5\n    'y': nil\n](Catalog)\n"},
 	// both parses order nested collections as Set items (whatever ranks them is used by both at the same time)
 	"two-parses-of-sets": {"[[2](List), [1](List)](Set)", "[[4](List), [3](List)](Set)"},
+	// a sentence parsed while another parse is being rejected (with tokens still unread behind the error)
+	"a-rejected-and-a-valid-parse": {"[1 2, 3, 4](List)", "[5, 6](List)"},
 }
 
 // reuseAfterRejection: one parser instance rejects a source and is then given a valid sentence; whatever the
@@ -642,9 +644,14 @@ func reuseAfterRejection(r *engine.Rec) {
 
 func twoParsesOf(r *engine.Rec, name string, docs [2]string) {
 	var want [2]string
+	var rejected [2]bool
 	for i, d := range docs {
 		res := cdcnx.Parse(d)
 		want[i] = dump.Dump(res.Value)
+		if res.Out.Panicked {
+			rejected[i] = true
+			want[i] = firstLine(res.Out.Value)
+		}
 	}
 	prog := func() ([]rt.ThreadSpec, func(*rt.Exec) []string) {
 		var vals [2]any
@@ -657,6 +664,12 @@ func twoParsesOf(r *engine.Rec, name string, docs [2]string) {
 		return []rt.ThreadSpec{mk(0), mk(1)}, func(ex *rt.Exec) []string {
 			var what []string
 			for i := range docs {
+				if rejected[i] {
+					if !outs[i].Panicked || firstLine(outs[i].Value) != want[i] {
+						what = append(what, "the diagnostic for an ill-formed source changes when another parse runs at the same time\x00"+fmt.Sprintf("%q: %q, alone %q", docs[i], firstLine(outs[i].Value), want[i]))
+					}
+					continue
+				}
 				if outs[i].Panicked {
 					what = append(what, "a sentence is rejected when another parse runs at the same time\x00"+fmt.Sprintf("%q: %s", docs[i], firstLine(outs[i].Value)))
 				} else if d := dump.Dump(vals[i]); d != want[i] {
@@ -699,7 +712,7 @@ func init() {
 		Budget:    func(string) time.Duration { return 5 * time.Minute },
 		Units: func(string) []engine.Unit {
 			us := []engine.Unit{{Name: "literals", Run: literalPositions}, {Name: "structure", Run: structure}}
-			for _, n := range []string{"two-parses", "two-parses-of-sets"} {
+			for _, n := range []string{"two-parses", "two-parses-of-sets", "a-rejected-and-a-valid-parse"} {
 				us = append(us, engine.Unit{Name: "schedules-" + n, Run: twoParses(n, twoParseDocs[n])})
 			}
 			us = append(us, engine.Unit{Name: "schedules-reuse-after-rejection", Run: reuseAfterRejection})
